@@ -52,6 +52,17 @@ def run_basic(prop, tier, seed, gen_kwargs=None):
             return gen.gen_core(r, **gk)
     else:
         genf = lambda r: gen.gen_core(r, **gk)
+    if prop == "C05":
+        # deterministic probe of known finding F5 (see vlib/probes.py)
+        from .. import probes
+        _inner = genf
+        _state = {"first": True}
+
+        def genf(r, _inner=_inner, _state=_state):
+            if _state["first"]:
+                _state["first"] = False
+                return probes.f5_grammar()
+            return _inner(r)
     subj, cases = pipeline.make_cases(chk, rng, n_gram, genf, ALL_TAGS, want=want)
     irng = chk.rng("inputs")
     execs = []
@@ -61,6 +72,10 @@ def run_basic(prop, tier, seed, gen_kwargs=None):
     for c in cases:
         pipeline.inputs_for_case(irng, c, exhaustive_budget=budget[0], nrandom=budget[1], nmut=budget[2],
                                  max_len=budget[3])
+        for w in getattr(c.g, "probe_inputs", []):
+            for s0 in c.inputs:
+                if w not in c.inputs[s0]:
+                    c.inputs[s0].append(w)
         for s, ins in c.inputs.items():
             for w in ins:
                 gap = irng.choice([0, 5])
